@@ -29,8 +29,8 @@ impl Property for C09 {
     }
     fn cases(&self, tier: Tier) -> usize {
         match tier {
-            Tier::Quick => 40_000,
-            Tier::Thorough => 1_500_000,
+            Tier::Quick => 200_000,
+            Tier::Thorough => 4_000_000,
         }
     }
     fn tape_max(&self) -> usize {
